@@ -2,8 +2,8 @@
      0..29  generic layer: one chain of real plugins on adversarial events; the model's answer is the
             constant (1) = "every Do returned a defined result, nothing panicked, every event that
             went on encodes, is valid JSON, re-parses to the same tree and is unchanged afterwards"
-     30 cut filter        case (first count #src)                 obs (0 #out) | (2)
-     31 trim_to filter    case (mode #cutset #src)                obs (0 #out) | (2)
+     30 cut filter        case (first count #src)                 obs (0 #out) | (2) | (7) rejected by validation (count <= 0)
+     31 trim_to filter    case (mode #cutset #src)                obs (0 #out) | (2) | (7) rejected (empty cutset)
      32 trim filter       case (mode #cutset #src)                obs (0 #out) | (2)
      33 re filter         case (#re limit (group ...) #sep emptyOnNotMatched #src)
                           obs  (nsub ((i ...) ...) out)           the regexp's answer is the oracle part
@@ -60,7 +60,9 @@ Definition cut_run (case obs : sx) : verdict :=
   match case with
   | SL [f; SZ count; SB src] =>
       match as_bool f with
-      | Some first => diff_verdict (sx_res_bytes (cut_apply first count src)) obs
+      | Some first =>
+          if count <=? 0 then diff_verdict (SL [SZ 7]) obs      (* parseCutFilter: must be greater than 0 *)
+          else diff_verdict (sx_res_bytes (cut_apply first count src)) obs
       | None => BadCase
       end
   | _ => BadCase
@@ -68,7 +70,11 @@ Definition cut_run (case obs : sx) : verdict :=
 
 Definition trim_to_run (case obs : sx) : verdict :=
   match case with
-  | SL [SZ mode; SB cutset; SB src] => diff_verdict (sx_res_bytes (trim_to_apply mode cutset src)) obs
+  | SL [SZ mode; SB cutset; SB src] =>
+      match cutset with
+      | [] => diff_verdict (SL [SZ 7]) obs                       (* parseTrimToFilter: must be non-empty *)
+      | _ :: _ => diff_verdict (sx_res_bytes (trim_to_apply mode cutset src)) obs
+      end
   | _ => BadCase
   end.
 
